@@ -78,8 +78,8 @@ impl Visitor<Diagnostic> for SymbolTable<'_, Id, DummyNode> {
     }
 
     fn visit_program_declaration(&mut self, node: &ProgramDeclaration) -> Result<(), Diagnostic> {
+        // Only a function has a variable having its name (the return value)
         self.enter();
-        self.add(&node.name, DummyNode {});
         let ret = node.recurse_visit(self);
         self.exit();
         ret
@@ -89,8 +89,8 @@ impl Visitor<Diagnostic> for SymbolTable<'_, Id, DummyNode> {
         &mut self,
         node: &FunctionBlockDeclaration,
     ) -> Result<(), Diagnostic> {
+        // Only a function has a variable having its name (the return value)
         self.enter();
-        self.add(&node.name, DummyNode {});
         let ret = node.recurse_visit(self);
         self.exit();
         ret
